@@ -261,6 +261,7 @@ class MultiWcsProcessor(object):
 
     def _tile_parallel(self, pio, reproject_function, cli_progress, parallel, **kwargs):
         import multiprocessing as mp
+        from .par_util import check_worker_exit_codes
 
         # Start up the workers
 
@@ -292,6 +293,8 @@ class MultiWcsProcessor(object):
 
         for w in workers:
             w.join()
+
+        check_worker_exit_codes(workers)
 
 
 def _mp_tile_worker(queue, done_event, pio, reproject_function, kwargs):
